@@ -428,7 +428,17 @@ class Func:
         ds = self.defs(l)
         if not ds:
             return None
+        ds = [d for d in ds if d.get("p") and len(d["p"]) == 1]
+        if not ds:
+            return None
         for d in ds:
+            if d["kind"] == "call" and len(ds) > 1:
+                # one of several return paths delegates to a call (`?`'s from_residual, or a tail call of a spliced helper)
+                c = callee_of(d["term"])
+                name = c["def"] if c else "?"
+                out.append({"bb": d["bb"], "si": None, "kind": "residual" if name == FROM_RESIDUAL else "call:" + name,
+                            "detail": c, "at": d["at"]})
+                continue
             if d["kind"] != "assign":
                 return None
             rv = d["rv"]
